@@ -10,6 +10,7 @@ package gocql
 
 import (
 	"bufio"
+	"bytes"
 	"encoding/binary"
 	"encoding/json"
 	"errors"
@@ -106,8 +107,14 @@ func (n *vfC04Node) serve(c net.Conn) {
 			stream, op = int(int8(h[2])), h[3]
 		}
 		ln := int(binary.BigEndian.Uint32(h[hs-4 : hs]))
-		if _, err := io.CopyN(io.Discard, rd, int64(ln)); err != nil {
+		body := make([]byte, ln)
+		if _, err := io.ReadFull(rd, body); err != nil {
 			return
+		}
+		if h[1]&0x01 != 0 {
+			if dec, err := (SnappyCompressor{}).Decode(body); err == nil {
+				body = dec
+			}
 		}
 		n.mu.Lock()
 		n.nreq[op]++
@@ -133,6 +140,13 @@ func (n *vfC04Node) serve(c net.Conn) {
 			if n.comp {
 				out = vfC04Compress(out)
 			}
+		case byte(opQuery):
+			if bytes.Contains(body, []byte("system.")) {
+				// the driver's own schema-agreement queries after a schema change: nothing to report
+				out = vfC04Hdr(ver, stream, byte(opResult), []byte{0, 0, 0, 1})
+				break
+			}
+			fallthrough
 		default:
 			out = vfC04Restream(resp, stream)
 			if n.comp {
@@ -199,7 +213,7 @@ func (s *vfC04Sess) close() {
 
 // vfC04SessView runs the case as a query through the live session.  skip: let the driver ask
 // the server to skip the result metadata (the default for prepared statements).
-func vfC04SessView(s *vfC04Sess, c *vfC04Case, mode string, skip bool) vfC04M {
+func vfC04SessView(s *vfC04Sess, c *vfC04Case, mode string, skip, iterOnly bool) vfC04M {
 	v := vfC04EmptyView(c.ID, mode)
 	s.node.set(vfC04I2B(c.Prep), vfC04I2B(c.Bytes))
 	// a SELECT is prepared first (the node answers PREPARE with c.Prep); anything else goes
@@ -245,6 +259,12 @@ func vfC04SessView(s *vfC04Sess, c *vfC04Case, mode string, skip bool) vfC04M {
 			} else {
 				v["perr"] = vfC04Ascii(err.Error())
 			}
+			return
+		}
+		if iterOnly {
+			// a result without rows: all there is to see is an iterator without columns and rows
+			v["kind"] = "iter"
+			v["f"] = vfC04M{"ncols": len(f["cols"].([]vfC04M)), "nrows": f["nrows"], "paging": f["paging"]}
 			return
 		}
 		v["kind"] = "rows"
@@ -375,7 +395,7 @@ func TestVfC04Run(t *testing.T) {
 			switch mode {
 			case "plain", "snappy":
 				fjobs[i%nfw] = append(fjobs[i%nfw], job{c, mode})
-			case "sess-full", "sess-skip", "sess-full-z", "sess-skip-z", "sess-prep", "sess-prep-z":
+			case "sess-full", "sess-skip", "sess-full-z", "sess-skip-z", "sess-prep", "sess-prep-z", "sess-iter", "sess-iter-z":
 				comp := strings.HasSuffix(mode, "-z")
 				key := fmt.Sprintf("%d/%v", c.V, comp)
 				sjobs[key] = append(sjobs[key], job{c, mode})
@@ -412,7 +432,7 @@ func TestVfC04Run(t *testing.T) {
 				if strings.HasPrefix(j.mode, "sess-prep") {
 					emit(vfC04PrepView(s, j.c, j.mode))
 				} else {
-					emit(vfC04SessView(s, j.c, j.mode, strings.HasPrefix(j.mode, "sess-skip")))
+					emit(vfC04SessView(s, j.c, j.mode, strings.HasPrefix(j.mode, "sess-skip"), strings.HasPrefix(j.mode, "sess-iter")))
 				}
 			}
 		}(key, js)
